@@ -5,6 +5,7 @@ from common import HERE, OUT, REPO, GOENV, EVIDENCE_DIR
 import gosym
 
 KNOWN_FILE = os.path.join(HERE, 'known_findings.txt')
+LAST_CHECK = None
 
 
 def load_known():
@@ -53,6 +54,8 @@ class Check:
         self.outdir = os.path.join(OUT, pid)
         os.makedirs(self.outdir, exist_ok=True)
         self.replay_n = 0
+        global LAST_CHECK
+        LAST_CHECK = self
 
     # -------------------------------------------------------------- bookkeeping
     def absorb(self, eng):
@@ -208,7 +211,8 @@ def guarded_main(pid, main):
         import traceback
         tb = traceback.format_exc()
         sys.stderr.write(tb)
-        ck = Check(pid)
+        # keep what was established before the failure (obligations, replayed violations): only the rest is inconclusive
+        ck = LAST_CHECK if LAST_CHECK is not None and LAST_CHECK.pid == pid else Check(pid)
         ck.record('check_aborted', 'inconclusive', 'the check could not be completed: %s: %s' % (type(ex).__name__, str(ex)[:300]))
         ck.extra['aborted'] = tb[-1500:]
         ck.finish()
